@@ -236,6 +236,17 @@ func suiteClient(args []string) {
 			forced = append(forced, forcedCase{kmip.OPERATION_ACTIVATE, kmip.ActivateRequest{UniqueIdentifier: "x"}, append([]byte(nil), full[:cut]...)})
 		}
 	}
+	// replies whose payload holds several short byte strings side by side (one-block ciphertext, IV, authentication tag): each
+	// field comes back as it was sent
+	for k := 0; k < 6; k++ {
+		bs := func(n int, c byte) []byte { return bytes.Repeat([]byte{c}, n) }
+		resp := kmip.Response{Header: kmip.ResponseHeader{Version: kmip.ProtocolVersion{Major: 1, Minor: 4}, TimeStamp: time.Unix(1000, 0), BatchCount: 1},
+			BatchItems: []kmip.ResponseBatchItem{{Operation: kmip.OPERATION_ENCRYPT, ResultStatus: kmip.RESULT_STATUS_SUCCESS,
+				ResponsePayload: kmip.EncryptResponse{UniqueIdentifier: "k", Data: bs(16+k, 0xd0), IVCounterNonce: bs(12, 0x1f), CorrelationValue: bs(4+k, 0xc0), AuthTag: bs(16, 0xa0)}}}}
+		if _, full := implEncode(&resp); full != nil {
+			forced = append(forced, forcedCase{kmip.OPERATION_ENCRYPT, kmip.EncryptRequest{UniqueIdentifier: "k", Data: bs(8, 1)}, full})
+		}
+	}
 	total := *n + len(shapes) + len(forced)
 	for i := 0; i < total; i++ {
 		op := reqOps[r.Intn(len(reqOps))]
@@ -875,6 +886,84 @@ func suiteTLS(args []string) {
 		expect("reused Client: first by IP address", try(c2, byIP), false)
 		expect("reused Client: then by name", try(c2, byName), true)
 	}()
+	// Shutdown while a handshake is PENDING (the peer sits in its certificate callback and then presents no certificate / a
+	// self-signed one): whatever Shutdown does about such a connection, the peer was never authenticated - no session-auth
+	// callback, no handler, no response
+	for _, ck := range []string{"none", "selfsigned"} {
+		func() {
+			scfg := &tls.Config{Certificates: []tls.Certificate{p.server["valid"]}, ClientCAs: p.pool}
+			kmip.DefaultServerTLSConfig(scfg)
+			var sessAuthCalls, handlerCalls int32
+			srv := &kmip.Server{TLSConfig: scfg, Log: log.New(io.Discard, "", 0), ReadTimeout: 2 * time.Second, WriteTimeout: 2 * time.Second}
+			srv.SessionAuthHandler = func(conn net.Conn) (interface{}, error) { atomic.AddInt32(&sessAuthCalls, 1); return nil, nil }
+			srv.Handle(kmip.OPERATION_DISCOVER_VERSIONS, func(ctx *kmip.RequestContext, item *kmip.RequestBatchItem) (interface{}, error) {
+				atomic.AddInt32(&handlerCalls, 1)
+				return kmip.DiscoverVersionsResponse{}, nil
+			})
+			l, err := tlsListen(scfg)
+			if err != nil {
+				return
+			}
+			init := make(chan struct{})
+			served := make(chan error, 1)
+			go func() { served <- srv.Serve(l, init) }()
+			<-init
+			inCallback, release := make(chan struct{}), make(chan struct{})
+			var once sync.Once
+			ccfg := &tls.Config{RootCAs: p.pool, ServerName: "localhost", GetClientCertificate: func(*tls.CertificateRequestInfo) (*tls.Certificate, error) {
+				once.Do(func() { close(inCallback) })
+				<-release
+				if ck == "none" {
+					return &tls.Certificate{}, nil
+				}
+				c := p.client["selfsigned"]
+				return &c, nil
+			}}
+			gotResponse := make(chan bool, 1)
+			go func() {
+				conn, err := tls.Dial("tcp", l.Addr().String(), ccfg)
+				if err != nil {
+					gotResponse <- false
+					return
+				}
+				defer conn.Close()
+				conn.SetDeadline(time.Now().Add(2 * time.Second))
+				conn.Write(req)
+				hdr := make([]byte, 8)
+				_, err = io.ReadFull(conn, hdr)
+				gotResponse <- err == nil && hdr[0] == 0x42 && hdr[2] == 0x7b
+			}()
+			select {
+			case <-inCallback:
+			case <-time.After(3 * time.Second):
+			}
+			shDone := make(chan struct{})
+			go func() {
+				ctx, cancel := contextWithTimeout(3 * time.Second)
+				srv.Shutdown(ctx)
+				cancel()
+				close(shDone)
+			}()
+			time.Sleep(150 * time.Millisecond)
+			close(release)
+			resp := false
+			select {
+			case resp = <-gotResponse:
+			case <-time.After(4 * time.Second):
+			}
+			<-shDone
+			select {
+			case <-served:
+			case <-time.After(2 * time.Second):
+			}
+			rep.Evaluations++
+			rep.Distribution["shutdown-during-handshake"]++
+			if sa, h := atomic.LoadInt32(&sessAuthCalls), atomic.LoadInt32(&handlerCalls); sa > 0 || h > 0 || resp {
+				viol("tls-admitted", map[string]interface{}{"what": "Shutdown while the handshake of a peer without a valid certificate was pending: the session-authentication callback or a handler ran, or a response was sent, for a peer that was never authenticated",
+					"peer_certificate": ck, "session_auth_calls": sa, "handler_calls": h, "response_received": resp})
+			}
+		}()
+	}
 	cw.close()
 	rep.Evaluations += cw.n
 	rep.Nontrivial = cw.n
